@@ -12,9 +12,9 @@ try:
     for d in sorted(glob.glob(os.path.join(V, 'seeded', 'C*-r*-*'))):
         case = os.path.basename(d)
         mp = os.path.join(d, 'meta.json')
-        if (pat and not re.search(pat, case)) or not os.path.exists(mp):
+        if pat and not re.search(pat, case):
             continue
-        m = json.load(open(mp))
+        m = json.load(open(mp)) if os.path.exists(mp) else {'case': case, 'property': case.split('-')[0]}
         if only_false and m.get('existing_suite_still_passes') is not False:
             continue
         sh('git -C %s checkout -- .; git -C %s clean -fdq' % (WT, WT))
@@ -23,6 +23,7 @@ try:
             continue
         t = sh('cd %s && timeout 2700 python3 tools/baseline.py %s' % (V, WT))
         m['existing_suite_still_passes'] = t.returncode == 0
+        m['existing_suite_checked_on_head'] = sh('git -C /repo rev-parse --short HEAD').stdout.strip()
         m['existing_suite_note'] = (t.stdout.strip().splitlines() or [''])[0][:200]
         json.dump(m, open(mp, 'w'), indent=1)
         print(case, m['existing_suite_still_passes'], m['existing_suite_note'], flush=True)
